@@ -550,7 +550,7 @@ def main():
     thorough = chk.tier == 'thorough'
     chk.encode(SB._SynodicDetectionBackend.detect_on_trajectory, SB._on_surface_indices, SB._crossing_indices_and_alpha, SB._refine_hits_linear,
                SB._refine_hits_cubic, SB._order_and_dedup_hits, SB._detect_with_segment_refine, SB._compute_event_values, SB._is_vectorizable_plane_event)
-    chk.bound(samples='N = 3 (quick), N = 4 (thorough): 2 resp. 3 bracketing intervals', state_dim=6, directions='{None, +1, -1}',
+    chk.bound(samples='N = 3 (quick), N = 4 for the one-sided directions (thorough): 2 resp. 3 bracketing intervals', state_dim=6, directions='{None, +1, -1}',
               normals='two concrete normals (axis, oblique) with symbolic offset (generic event path) and a concrete offset (vectorised path)',
               cubic='N = 4, newton_max_iter <= %d, one refined crossing per call' % (2 if thorough else 1), segment_refine='0, and 1 with N = 3 on the linear dense path (also 3, and an oblique normal, in the thorough tier; only dyadic sub-interval lengths, see the comment in main)')
     chk.assume('strictly increasing sample times', 'tol_on_surface > 0, dedup tolerances >= 0 (symbolic)',
@@ -564,7 +564,7 @@ def main():
     linear_detection(chk, 3, 1, 'oblique', 500, vectorised=True)
     if thorough:
         linear_detection(chk, 3, None, 'oblique', 1500, vectorised=False)
-        for direction in (None, 1, -1):
+        for direction in (1, -1):      # direction None at N = 4: six quadratic feasibility queries stay `unknown` in z3 (every obligation it reached was discharged, but the exploration is not provably complete): not claimed
             linear_detection(chk, 4, direction, 'x-axis', 3000, vectorised=False)
     cubic_refine(chk, None, 400, 2 if thorough else 1)
     for direction in (None, 1, -1):
